@@ -1,0 +1,239 @@
+//go:build verif
+
+// Verification hooks: thin exported wrappers around unexported functions and a canonical
+// dump of the policy tables.  Compiled only with -tags verif; nothing here is used by the
+// library itself.
+
+package bluemonday
+
+import (
+	"fmt"
+	"reflect"
+	"regexp"
+	"runtime"
+	"sort"
+	"strings"
+
+	"golang.org/x/net/html"
+)
+
+// VerifSanitizeAttrs runs sanitizeAttrs for one element exactly as the token loop does:
+// the explicit element entry if there is one, else the merged pattern entries.
+// found reports whether the element is allowed at all.
+func VerifSanitizeAttrs(p *Policy, element string, attrs []html.Attribute) (out []html.Attribute, found bool) {
+	p.init()
+	aps, ok := p.elsAndAttrs[element]
+	if !ok {
+		aa, matched := p.matchRegex(element)
+		if !matched {
+			return nil, false
+		}
+		aps = aa
+	}
+	cp := make([]html.Attribute, len(attrs))
+	copy(cp, attrs)
+	if len(cp) != 0 {
+		cp = p.sanitizeAttrs(element, cp, aps)
+	}
+	return cp, true
+}
+
+func VerifValidURL(p *Policy, rawurl string) (string, bool) { return p.validURL(rawurl) }
+
+func VerifSanitizeStyles(p *Policy, element, value string) string {
+	return p.sanitizeStyles(html.Attribute{Key: "style", Val: value}, element).Val
+}
+
+func VerifAllowNoAttrs(p *Policy, element string) bool { return p.allowNoAttrs(element) }
+func VerifRemoveUnicode(s string) string                { return removeUnicode(s) }
+func VerifIsDataAttribute(s string) bool                { return isDataAttribute(s) }
+func VerifNormaliseElementName(s string) string         { return normaliseElementName(s) }
+func VerifLinkable(s string) bool                       { return linkable(s) }
+
+func verifFuncName(f interface{}) string {
+	v := reflect.ValueOf(f)
+	if !v.IsValid() || v.IsNil() {
+		return "nil"
+	}
+	n := runtime.FuncForPC(v.Pointer()).Name()
+	if i := strings.LastIndex(n, "/"); i >= 0 {
+		n = n[i+1:]
+	}
+	return fmt.Sprintf("%s@%x", n, v.Pointer())
+}
+
+// VerifDumpPolicy renders every table of the policy canonically (maps sorted by key).
+// Regexps are rendered through name (pointer identity -> caller-chosen name).
+func VerifDumpPolicy(p *Policy, name func(*regexp.Regexp) string) string {
+	var b strings.Builder
+	boolS := func(k string, v bool) { fmt.Fprintf(&b, "%s=%v\n", k, v) }
+	boolS("addSpaces", p.addSpaces)
+	boolS("requireNoFollow", p.requireNoFollow)
+	boolS("requireNoFollowFQ", p.requireNoFollowFullyQualifiedLinks)
+	boolS("requireNoReferrer", p.requireNoReferrer)
+	boolS("requireNoReferrerFQ", p.requireNoReferrerFullyQualifiedLinks)
+	boolS("requireCrossOrigin", p.requireCrossOriginAnonymous)
+	boolS("addTargetBlank", p.addTargetBlankToFullyQualifiedLinks)
+	boolS("requireParseableURLs", p.requireParseableURLs)
+	boolS("allowRelativeURLs", p.allowRelativeURLs)
+	boolS("allowDataAttributes", p.allowDataAttributes)
+	boolS("allowComments", p.allowComments)
+	boolS("allowUnsafe", p.allowUnsafe)
+	if p.requireSandboxOnIFrame == nil {
+		b.WriteString("sandbox=nil\n")
+	} else {
+		var ks []string
+		for k, v := range p.requireSandboxOnIFrame {
+			if v {
+				ks = append(ks, k)
+			}
+		}
+		sort.Strings(ks)
+		fmt.Fprintf(&b, "sandbox=[%s]\n", strings.Join(ks, ","))
+	}
+	aps := func(l []attrPolicy) string {
+		var s []string
+		for _, ap := range l {
+			if ap.regexp == nil {
+				s = append(s, "-")
+			} else {
+				s = append(s, name(ap.regexp))
+			}
+		}
+		return strings.Join(s, " ")
+	}
+	sps := func(l []stylePolicy) string {
+		var s []string
+		for _, sp := range l {
+			switch {
+			case sp.handler != nil:
+				s = append(s, "H:"+verifFuncName(sp.handler))
+			case len(sp.enum) > 0:
+				s = append(s, fmt.Sprintf("E:%q", sp.enum))
+			case sp.regexp != nil:
+				s = append(s, "R:"+name(sp.regexp))
+			default:
+				s = append(s, "none")
+			}
+		}
+		return strings.Join(s, " ")
+	}
+	dumpAttrMap := func(prefix string, m map[string][]attrPolicy) {
+		var ks []string
+		for k := range m {
+			ks = append(ks, k)
+		}
+		sort.Strings(ks)
+		if len(ks) == 0 {
+			fmt.Fprintf(&b, "%s {}\n", prefix)
+		}
+		for _, k := range ks {
+			fmt.Fprintf(&b, "%s %q: %s\n", prefix, k, aps(m[k]))
+		}
+	}
+	dumpStyleMap := func(prefix string, m map[string][]stylePolicy) {
+		var ks []string
+		for k := range m {
+			ks = append(ks, k)
+		}
+		sort.Strings(ks)
+		if len(ks) == 0 {
+			fmt.Fprintf(&b, "%s {}\n", prefix)
+		}
+		for _, k := range ks {
+			fmt.Fprintf(&b, "%s %q: %s\n", prefix, k, sps(m[k]))
+		}
+	}
+	{
+		var ks []string
+		for k := range p.elsAndAttrs {
+			ks = append(ks, k)
+		}
+		sort.Strings(ks)
+		for _, k := range ks {
+			dumpAttrMap(fmt.Sprintf("elsAndAttrs %q", k), p.elsAndAttrs[k])
+		}
+	}
+	{
+		var ks []string
+		byName := map[string]*regexp.Regexp{}
+		for k := range p.elsMatchingAndAttrs {
+			ks = append(ks, name(k))
+			byName[name(k)] = k
+		}
+		sort.Strings(ks)
+		for _, k := range ks {
+			dumpAttrMap("elsMatchingAndAttrs "+k, p.elsMatchingAndAttrs[byName[k]])
+		}
+	}
+	dumpAttrMap("globalAttrs", p.globalAttrs)
+	{
+		var ks []string
+		for k := range p.elsAndStyles {
+			ks = append(ks, k)
+		}
+		sort.Strings(ks)
+		for _, k := range ks {
+			dumpStyleMap(fmt.Sprintf("elsAndStyles %q", k), p.elsAndStyles[k])
+		}
+	}
+	{
+		var ks []string
+		byName := map[string]*regexp.Regexp{}
+		for k := range p.elsMatchingAndStyles {
+			ks = append(ks, name(k))
+			byName[name(k)] = k
+		}
+		sort.Strings(ks)
+		for _, k := range ks {
+			dumpStyleMap("elsMatchingAndStyles "+k, p.elsMatchingAndStyles[byName[k]])
+		}
+	}
+	dumpStyleMap("globalStyles", p.globalStyles)
+	{
+		var ks []string
+		for k := range p.allowURLSchemes {
+			ks = append(ks, k)
+		}
+		sort.Strings(ks)
+		for _, k := range ks {
+			var fs []string
+			for _, f := range p.allowURLSchemes[k] {
+				fs = append(fs, verifFuncName(f))
+			}
+			fmt.Fprintf(&b, "allowURLSchemes %q: %s\n", k, strings.Join(fs, " "))
+		}
+	}
+	{
+		var rs []string
+		for _, r := range p.allowURLSchemeRegexps {
+			rs = append(rs, name(r))
+		}
+		fmt.Fprintf(&b, "allowURLSchemeRegexps: %s\n", strings.Join(rs, " "))
+	}
+	fmt.Fprintf(&b, "srcRewriter: %s\n", verifFuncName(p.srcRewriter))
+	{
+		var ks []string
+		for k := range p.setOfElementsAllowedWithoutAttrs {
+			ks = append(ks, k)
+		}
+		sort.Strings(ks)
+		fmt.Fprintf(&b, "elsNoAttrs: %q\n", ks)
+	}
+	{
+		var rs []string
+		for _, r := range p.setOfElementsMatchingAllowedWithoutAttrs {
+			rs = append(rs, name(r))
+		}
+		fmt.Fprintf(&b, "elsMatchingNoAttrs: %s\n", strings.Join(rs, " "))
+	}
+	{
+		var ks []string
+		for k := range p.setOfElementsToSkipContent {
+			ks = append(ks, k)
+		}
+		sort.Strings(ks)
+		fmt.Fprintf(&b, "elsSkipContent: %q\n", ks)
+	}
+	return b.String()
+}
